@@ -427,8 +427,9 @@ class CFG(object):
                 seen.discard(src)
         return seen
 
-    def find_path(self, src, targets, avoid=(), skip_labels=()):
-        """shortest path (list of node ids) from src to any of targets not passing through avoid"""
+    def find_path(self, src, targets, avoid=(), skip_labels=(), forbid_edges=()):
+        """shortest path (list of node ids) from src to any of targets not passing through avoid nodes nor
+        forbid_edges (set of (from, to, label))"""
         targets = set(targets)
         avoid = set(avoid)
         prev = {src: None}
@@ -436,7 +437,7 @@ class CFG(object):
         while dq:
             n = dq.popleft()
             for t, lab in self.succ[n]:
-                if _skip(lab, skip_labels) or t in avoid:
+                if _skip(lab, skip_labels) or t in avoid or (forbid_edges and (n, t, lab) in forbid_edges):
                     continue
                 if t in targets:
                     path = [t, n]
